@@ -209,6 +209,36 @@ impl Router {
         HashMap<RouteSegments, TupleMap<Method, HandlerMeta>>
     ) {
         let routes = std::mem::take(&mut self.routes);
+
+        /*
+            Rebuild the automatic `OPTIONS` handlers from the complete method table:
+            the one set in `register_handlers` only knows the methods of a single
+            `HandlerSet`, and is overridden when other methods of the same route are
+            registered by another `HandlerSet` or a merged `Ohkami`.
+        */
+        let mut methods_of_routes = Vec::<(Vec<Pattern>, Vec<Method>)>::new();
+        for (route, handlers_meta) in &routes {
+            let route = route.clone().into_iter().map(Pattern::from).collect::<Vec<_>>();
+            let methods = match methods_of_routes.iter_mut().find(|(r, _)|
+                r.len() == route.len() && r.iter().zip(&route).all(|(a, b)| a.matches(b))
+            ) {
+                Some((_, methods)) => methods,
+                None => {
+                    methods_of_routes.push((route, Vec::new()));
+                    &mut methods_of_routes.last_mut().unwrap().1
+                }
+            };
+            methods.extend(handlers_meta.keys().copied());
+        }
+        for (route, methods) in methods_of_routes {
+            self.OPTIONS.override_handlers_at(&route, &Handler::default_options_with(
+                [Method::GET, Method::PUT, Method::POST, Method::PATCH, Method::DELETE].into_iter()
+                    .filter(|m| methods.contains(m))
+                    .map(|m| m.as_str())
+                    .collect()
+            ));
+        }
+
         for (route, handlers_meta) in &routes {
             for (_method, handler_meta) in handlers_meta.iter() {
                 assert!(
@@ -307,6 +337,20 @@ impl Node {
 
     fn append_fangs(&mut self, fangs: FangsList) {
         self.fangses.append(fangs);
+    }
+
+    /// replace the handler of every existing node at `route` that already has one
+    fn override_handlers_at(&mut self, route: &[Pattern], new_handler: &Handler) {
+        match route.split_first() {
+            None => if self.handler.is_some() {
+                self.handler = Some(new_handler.clone())
+            }
+            Some((pattern, remaining)) => for child in &mut self.children {
+                if child.pattern.as_ref().unwrap().matches(pattern) {
+                    child.override_handlers_at(remaining, new_handler)
+                }
+            }
+        }
     }
 
     fn set_handler(&mut self, new_handler: Handler, allow_override: bool) -> Result<(), String> {
